@@ -33,7 +33,10 @@ func DecodeSignature(sig string) (r, s *big.Int, err error) {
 	if len(values) != 2 {
 		return r, s, fmt.Errorf("wrong number of values in signature: got %d, want 2", len(values))
 	}
-	r, _ = new(big.Int).SetString(values[0], 36)
-	s, _ = new(big.Int).SetString(values[1], 36)
+	r, okR := new(big.Int).SetString(values[0], 36)
+	s, okS := new(big.Int).SetString(values[1], 36)
+	if !okR || !okS {
+		return nil, nil, fmt.Errorf("signature values are not base-36 integers")
+	}
 	return r, s, nil
 }
